@@ -477,7 +477,7 @@ def run(tier, seed):
                 continue
             seen.add(k)
             rep.violation(f["what"], dict(f, all_of_this_kind=[x["what"] for x in ofail if x["tag"] == f["tag"]][:12]), tags=f["tag"])
-    else:
+    if not [f for f in ofail if rep.match_known(f["tag"]) is None]:
         if not ok:
             rep.violation("proof obligations of C13 no longer check", {"broken_theorems": info["failed"], "lean_output": info["output"][-3000:]}, nofail=True)
         elif kdis:
